@@ -201,9 +201,6 @@ PROPS = {
     "C30": simprop(scenarios.c30, ["C30"], {"listener": 20, "offered": 10, "offeredmiss": 5, "requestedmiss": 10, "final": 30},
                    spec="Trace_Worker", mc=None, norm=tracenorm.normalise_worker),
     "C31": simprop(scenarios.c31, ["C31"], {"sleep": 2000}, spec="Trace_Worker", mc=None, norm=tracenorm.normalise_worker, keep_sleep=True),
-    "C34": graphprop("Channels", "Channels", ["MC_Channels_oneshot.cfg", "MC_Channels_mpsc.cfg", "MC_Channels_notification.cfg"],
-                     ["poll:value", "poll:pending", "poll:disconnected", "drop:last-sender", "poll:racing-send", "poll:racing-drop"],
-                     "channels driven through the cfg(dust_dds_verif) re-export; every operation of the code is one critical section"),
     "C28": graphprop("WriterInst", "WriterInst", ["MC_WriterInst.cfg"],
                      ["register:new", "register:idempotent", "register:not-enabled", "register:keyless", "unregister:unknown",
                       "unregister:registered", "unregister:keyless", "unregister:not-enabled", "dispose:unknown", "dispose:registered",
@@ -259,19 +256,19 @@ def _cases_from_tlc(module, cfg, wd):
 
 
 
-def _apalache(inv, wd, expect_ok=True, timeout=900):
-    """apalache-mc check --length=0 --inv=<inv> TimeConvA.tla ; returns wall seconds"""
+def _apalache(inv, wd, expect_ok=True, timeout=900, module="TimeConvA.tla", extra=("--length=0",)):
+    """apalache-mc check <extra> --inv=<inv> <module> ; returns wall seconds"""
     import subprocess, time
-    out = os.path.join(wd, "apalache_" + inv)
+    out = os.path.join(wd, "apalache_" + inv + ("_neg" if not expect_ok else "") + str(len(extra)))
     t0 = time.time()
-    p = subprocess.run(["timeout", str(timeout), "apalache-mc", "check", f"--out-dir={out}", "--length=0", f"--inv={inv}", "TimeConvA.tla"],
+    p = subprocess.run(["timeout", str(timeout), "apalache-mc", "check", f"--out-dir={out}"] + list(extra) + [f"--inv={inv}", module],
                        cwd=vlib.SPECS, stdout=subprocess.PIPE, stderr=subprocess.STDOUT, text=True)
     ok = "EXITCODE: OK" in p.stdout
     bad = "EXITCODE: ERROR (12)" in p.stdout
     if not ok and not bad:
         raise ToolError(f"apalache failed on {inv}: {p.stdout[-600:]}")
     if ok != expect_ok:
-        raise ToolError(f"apalache: invariant {inv} of TimeConvA.tla {'holds' if ok else 'is violated'}, expected the opposite: "
+        raise ToolError(f"apalache: invariant {inv} of {module} {'holds' if ok else 'is violated'}, expected the opposite: "
                         "the specification itself is inconsistent")
     import shutil
     shutil.rmtree(out, ignore_errors=True)
@@ -509,6 +506,30 @@ def c15_replay(prop, path):
 
 PROPS["C15"] = {"run": c15_run, "replay": c15_replay}
 PROPS["C14"] = {"run": c14_run, "replay": c14_replay}
+
+def _c34():
+    g = graphprop("Channels", "Channels", ["MC_Channels_oneshot.cfg", "MC_Channels_mpsc.cfg", "MC_Channels_notification.cfg"],
+                  ["poll:value", "poll:pending", "poll:disconnected", "drop:last-sender", "poll:racing-send", "poll:racing-drop"],
+                  "channels driven through the cfg(dust_dds_verif) re-export; every operation of the code is one critical section")
+
+    def run(p, tier, seed):
+        wd = vlib.workdir(p + ".apalache")
+        proofs = {"IndInv holds initially": _apalache("IndInv", wd, module="ChannelsA.tla", extra=("--init=Init", "--length=0")),
+                  "IndInv is inductive": _apalache("IndInv", wd, module="ChannelsA.tla", extra=("--init=IndInit", "--length=1"))}
+        if tier == "thorough":
+            proofs["NoLostWakeup fails for the split poll (must fail)"] = _apalache("NoLostWakeup", wd, expect_ok=False, module="ChannelsA.tla",
+                                                                                   extra=("--init=Init", "--next=NextSplit", "--length=4"))
+        res = g["run"](p, tier, seed)
+        res["coverage"]["apalache_inductive_invariant_wall_s"] = proofs
+        res["coverage"]["apalache_scope"] = ("ChannelsA.tla: NoLostWakeup /\\ Fifo is an inductive invariant of the mpsc channel for any number of sends, polls, "
+                                             "clones and drops (unbounded), not only for the configurations TLC enumerates")
+        res["assumptions"].append("Apalache / z3 are trusted; ChannelsA.tla abstracts the queue to its bounds (values are consecutive integers)")
+        return res
+    return {"run": run, "replay": g["replay"]}
+
+
+PROPS["C34"] = _c34()
+
 
 def c06_run(prop, tier, seed):
     wd = vlib.workdir(prop + ".enum")
